@@ -204,7 +204,7 @@ pub fn eval(expr: Node) -> Result<i64, Box<dyn error::Error>> {
         }
         Min(args) => {
             if args.len() > 1 {
-                let mut result = i64::MIN;
+                let mut result = i64::MAX;
                 for arg in <Vec<Node> as Clone>::clone(&args).into_iter() {
                     #[cfg(feature = "verif_hooks")]
                     crate::verif_hooks::tick(crate::verif_hooks::Point::EvalLoop);
@@ -220,7 +220,7 @@ pub fn eval(expr: Node) -> Result<i64, Box<dyn error::Error>> {
         }
         Max(args) => {
             if args.len() > 1 {
-                let mut result = i64::MAX;
+                let mut result = i64::MIN;
                 for arg in <Vec<Node> as Clone>::clone(&args).into_iter() {
                     #[cfg(feature = "verif_hooks")]
                     crate::verif_hooks::tick(crate::verif_hooks::Point::EvalLoop);
@@ -235,14 +235,14 @@ pub fn eval(expr: Node) -> Result<i64, Box<dyn error::Error>> {
             }
         }
         Avg(args) => {
-            let mut result = 0;
+            let mut result: i128 = 0;
             for arg in <Vec<Node> as Clone>::clone(&args).into_iter() {
                 #[cfg(feature = "verif_hooks")]
                 crate::verif_hooks::tick(crate::verif_hooks::Point::EvalLoop);
-                result += eval(arg)?;
+                result += eval(arg)? as i128;
             }
-            let len = args.len() as i64;
-            Ok(result / len)
+            let len = args.len() as i128;
+            Ok((result / len) as i64)
         }
         Med(args) => {
             let mut results = vec![];
@@ -254,7 +254,7 @@ pub fn eval(expr: Node) -> Result<i64, Box<dyn error::Error>> {
             results.sort_by(|a, b| a.partial_cmp(b).unwrap());
             let len = results.len();
             if len % 2 == 0 {
-                Ok((results[len >> 1] + results[(len >> 1) - 1]) / 2)
+                Ok(((results[len >> 1] as i128 + results[(len >> 1) - 1] as i128) / 2) as i64)
             } else {
                 Ok(results[len >> 1])
             }
